@@ -4,6 +4,7 @@ import Sentinel.Lemmas.PipelineCouple
 import Sentinel.Lemmas.PipelineFlowHist
 import Sentinel.Lemmas.PipelineHotHist
 import Sentinel.Lemmas.PipelineSysHist
+import Sentinel.Lemmas.PipelineIdle
 import Sentinel.Props.C02
 import Sentinel.Props.C06
 import Sentinel.Props.C01
@@ -840,6 +841,65 @@ theorem sys_block_reaches_no_later_slot (A : System.Arith R) (s : St R) (q : Req
   have hp1 : (Blk.sys).slot.pos < Slot.hot.pos := by simp [Blk.slot, Slot.pos]
   have hp2 : (Blk.sys).slot.pos < Slot.cb.pos := by simp [Blk.slot, Slot.pos]
   exact ⟨h6, h7, h1 hp1, (h2 hp2).1, (h2 hp2).2, h10⟩
+
+end Sentinel.INT
+
+/-! ## 3d. conservation: when every admitted entry has exited, every gauge the modules read is 0 -/
+
+namespace Sentinel.INT
+open Sentinel.Pipe
+
+variable {R : Type} [LT R] [∀ a b : R, Decidable (a < b)]
+
+/-- nothing is in flight on any node once `reqs` is empty: the ledger's live count is 0 (real accounts are all finished —
+    `reqs_are_live_contexts`; the node-creating ghosts of `flow.LoadRules` never account — `GhostStd`) -/
+theorem live_zero_when_idle (A : System.Arith R) (l0 c0 : R) (os : List (Pipe.Op R))
+    (hs : (run A (fresh l0 c0) os).1.started = true) (hidle : (run A (fresh l0 c0) os).1.reqs = []) (k : Entry.Key) :
+    Entry.live (run A (fresh l0 c0) os).1.eh k = 0 := by
+  have hinv : Inv (fresh l0 c0) := by intro h; simp [fresh] at h
+  have hl := inv_run A _ os hinv hs
+  have hsync := sync_run A _ os (sync_fresh l0 c0)
+  have hg : GhostStd (run A (fresh l0 c0) os).1 :=
+    ghostStd_run A _ os (sync_fresh l0 c0) (by intro g c hc; simp [fresh, Entry.init, Entry.findE] at hc)
+  have sim := Entry.sim_runR false _ _ hl.pos hl.mono
+  have hents : ∀ id, Entry.findE (run A (fresh l0 c0) os).1.ent.ents id =
+      (Entry.info (run A (fresh l0 c0) os).1.eh id).map Entry.ctxOf := by
+    intro id; rw [hl.ent]; exact sim.ents id
+  unfold Entry.live
+  rw [List.countP_eq_zero]
+  intro id hid
+  obtain ⟨i, hi⟩ := Option.isSome_iff_exists.mp ((Entry.mem_entryIds _ id).mp hid)
+  simp only [Entry.liveB, hi, Bool.and_eq_true, Bool.not_eq_true', not_and, Bool.not_eq_true]
+  intro hnd
+  have hc := hents id
+  rw [hi] at hc
+  rcases Nat.even_or_odd' id with ⟨g, rfl | rfl⟩
+  · have := hg g _ hc
+    simp only [Entry.ctxOf] at this
+    cases k <;> simp [Entry.touches, this]
+  · have hd := hsync.ctx.dead g (by rw [hidle]; intro q hq; cases hq) _ (by simpa [rid] using hc)
+    simp only [Entry.ctxOf] at hd
+    rw [hd] at hnd
+    cases hnd
+
+/-- **gauge conservation on the integrated chain** (C01 `gauge_zero_when_idle` transferred, with the ghosts of `flow.LoadRules`
+    accounted for): after any integrated history at whose end every admitted entry has exited — whatever mixture of passes
+    and of blocks by any of the five slots, errors, late exits, rule loads happened — the concurrency gauge of **every
+    resource node and of the inbound node** is 0, and so is the gauge the isolation slot reads. -/
+theorem gauges_zero_when_idle (A : System.Arith R) (l0 c0 : R) (os : List (Pipe.Op R))
+    (hs : (run A (fresh l0 c0) os).1.started = true) (hidle : (run A (fresh l0 c0) os).1.reqs = []) :
+    (∀ k g, Entry.obsConc (run A (fresh l0 c0) os).1.ent k = some g → g = 0) ∧
+    (∀ res, (run A (fresh l0 c0) os).1.iso.gauge res = 0) := by
+  have h1 : ∀ k g, Entry.obsConc (run A (fresh l0 c0) os).1.ent k = some g → g = 0 := by
+    intro k g hg
+    have := (gauge_is_live_integrated A l0 c0 os hs k g hg).1
+    rw [this, live_zero_when_idle A l0 c0 os hs hidle k]
+    rfl
+  refine ⟨h1, fun res => ?_⟩
+  rw [iso_gauge_coupled A l0 c0 os hs res]
+  cases hc : Entry.obsConc (run A (fresh l0 c0) os).1.ent (some res) with
+  | none => rfl
+  | some g => simp [h1 _ g hc]
 
 end Sentinel.INT
 
